@@ -41,6 +41,10 @@ type descriptor struct {
 	// for the incoming flow that holds fewest - and all answers of a step are
 	// given at the same moment
 	StaleJoin int `json:"staleJoin,omitempty"`
+	// SharedLoc: the instance is given a data locator of the caller's
+	// (bpmn.WithLocator); while it runs, further instances are created on the
+	// same locator (and dropped again) from another goroutine
+	SharedLoc bool `json:"sharedLoc,omitempty"`
 }
 
 func stripResults(b *gen.Block) {
@@ -129,7 +133,13 @@ func run(d descriptor) *result {
 		perturb.Install(d.Perturb, 30, nil)
 		defer perturb.Remove()
 	}
-	in, err := drive.New(prog.XML(), drive.Options{Vars: d.Vars})
+	var loc data.IFlowDataLocator
+	o := drive.Options{Vars: d.Vars}
+	if d.SharedLoc {
+		loc = data.NewFlowDataLocator()
+		o.Extra = []bpmn.Option{bpmn.WithLocator(loc)}
+	}
+	in, err := drive.New(prog.XML(), o)
 	if err != nil {
 		r.Symptom, r.Detail = "construct", err.Error()
 		return r
@@ -192,6 +202,13 @@ func run(d descriptor) *result {
 		for i := 0; i < d.Noise; i++ {
 			loop(func() { in.P.ConsumeEvent(drive.Signal("zz-nobody")) })
 		}
+		if loc != nil {
+			loop(func() {
+				c2, cancel2 := context.WithCancel(context.Background())
+				_, _ = bpmn.NewEngine().NewProcess(in.Defs, bpmn.WithContext(c2), bpmn.WithLocator(loc))
+				cancel2()
+			})
+		}
 		wctx, wcancel := context.WithCancel(context.Background())
 		for i := 0; i < d.Waiters; i++ {
 			bg.Add(1)
@@ -229,6 +246,11 @@ func run(d descriptor) *result {
 		sort.Strings(have)
 		want := m.PendingIDs()
 		if fmt.Sprint(have) != fmt.Sprint(want) {
+			if d.SharedLoc {
+				// (instances created on the same locator re-declare its containers: what
+				// the run then does is the caller's business - only races and crashes count)
+				return r
+			}
 			r.Symptom, r.Detail = "outcome", fmt.Sprintf("step %d: pending requests %v; the sequential token semantics allow only %v", step, have, want)
 			r.Traces = drive.DescribeAll(in.Traces())
 			return r
@@ -284,6 +306,11 @@ func run(d descriptor) *result {
 		}
 		cancel2()
 		if !ok {
+			if d.SharedLoc {
+				// (instances created on the same locator re-declare its containers: what
+				// the run then does is the caller's business - only races and crashes count)
+				return r
+			}
 			r.Symptom, r.Detail = "outcome", "sequential semantics: the instance is complete; engine: WaitUntilComplete still blocks at quiescence"
 			r.Traces = drive.DescribeAll(in.Traces())
 			return r
@@ -294,6 +321,11 @@ func run(d descriptor) *result {
 	wantFlows := append([]string(nil), m.AllFlows...)
 	sort.Strings(wantFlows)
 	if fmt.Sprint(sum.Flows) != fmt.Sprint(wantFlows) {
+		if d.SharedLoc {
+			// (instances created on the same locator re-declare its containers: what
+			// the run then does is the caller's business - only races and crashes count)
+			return r
+		}
 		r.Symptom, r.Detail = "outcome", fmt.Sprintf("sequence flows taken %v, sequential semantics %v", sum.Flows, wantFlows)
 		r.Traces = drive.DescribeAll(in.Traces())
 	}
@@ -351,7 +383,7 @@ func TestC17Concurrent(t *testing.T) {
 			Readers: rapid.IntRange(1, 4).Draw(rt, "readers"), Subs: rapid.IntRange(0, 3).Draw(rt, "subs"),
 			Waiters: rapid.IntRange(0, 3).Draw(rt, "waiters"), Noise: rapid.IntRange(0, 3).Draw(rt, "noise"),
 			Perturb: uint64(rapid.IntRange(0, 300).Draw(rt, "perturb")), DeclSeed: rapid.IntRange(0, 50).Draw(rt, "declSeed"),
-			StaleJoin: rapid.SampledFrom([]int{0, 0, 0, 1, 1, 2}).Draw(rt, "staleJoin")}
+			StaleJoin: rapid.SampledFrom([]int{0, 0, 0, 1, 1, 2}).Draw(rt, "staleJoin"), SharedLoc: rapid.IntRange(0, 3).Draw(rt, "sharedLoc") == 0}
 		for _, v := range gen.IntVars {
 			d.Vars[v] = int64(rapid.IntRange(0, 3).Draw(rt, v))
 		}
